@@ -96,6 +96,9 @@ var bigVal = func() []byte {
 
 var tooBigVal = make([]byte, mpt.MaxValueLength+1)
 
+// longKey extends kmax by one byte: one byte more than any key the trie accepts.
+var longKey = append(maxKey(), 0xab)
+
 // The key universe: k12 is a prefix of k1201/k1234/k123456/k1235/kmax, k1234
 // is a prefix of k123456 and kmax, k1234/k1235 share three nibbles, k1201 has
 // a zero nibble right after k12, k02/k12/k20 differ in the first nibble,
@@ -461,6 +464,10 @@ func doFind(tr *mpt.Trie, m map[string][]byte, prefix, from []byte, max int) (ba
 // doSeek calls TrieStore.Seek and compares with the model. stop > 0: the
 // callback returns false at the stop-th element. cls classifies a mismatch.
 func doSeek(ts *mpt.TrieStore, m map[string][]byte, prefix, start []byte, backwards bool, stop int) (bad, cls string) {
+	return doSeekP(ts, storage.STStorage, m, prefix, start, backwards, stop)
+}
+
+func doSeekP(ts *mpt.TrieStore, sp storage.KeyPrefix, m map[string][]byte, prefix, start []byte, backwards bool, stop int) (bad, cls string) {
 	defer func() {
 		if r := recover(); r != nil {
 			bad, cls = fmt.Sprintf("panic: %v", r), "panic"
@@ -469,11 +476,11 @@ func doSeek(ts *mpt.TrieStore, m map[string][]byte, prefix, start []byte, backwa
 	want, amb := modelSeek(m, prefix, start, backwards)
 	var got []kvp
 	n := 0
-	full := append([]byte{byte(storage.STStorage)}, prefix...)
+	full := append([]byte{byte(sp)}, prefix...)
 	badKey := ""
 	ts.Seek(storage.SeekRange{Prefix: full, Start: start, Backwards: backwards}, func(k, v []byte) bool {
 		n++
-		if len(k) == 0 || k[0] != byte(storage.STStorage) {
+		if len(k) == 0 || k[0] != byte(sp) {
 			badKey = fmt.Sprintf("key %x lacks the storage prefix", k)
 			return false
 		}
@@ -739,8 +746,19 @@ func readsOf(tr *mpt.Trie, u *uni, c []int8, s *stats, what string, level int) (
 			return "get" + what, fmt.Sprintf("Get(%s) of an absent key fails with %q instead of ErrNotFound", u.KN[i], err)
 		}
 	}
+	// a key longer than MaxKeyLength cannot be present
+	if v, err := tr.Get(longKey); err == nil {
+		return "get" + what, fmt.Sprintf("Get of a %d-byte key returns %x", len(longKey), v)
+	}
 	if level == 0 {
 		return "", ""
+	}
+	if p, err := tr.GetProof(longKey); err == nil {
+		return "proof" + what, fmt.Sprintf("GetProof of a %d-byte key succeeds with %d nodes", len(longKey), len(p))
+	} else if level >= 2 {
+		if v, ok, pan := safeVerify(root, longKey, p); ok || pan != "" {
+			return "proof" + what, fmt.Sprintf("VerifyProof of a %d-byte key = (%x, %v) %s", len(longKey), v, ok, pan)
+		}
 	}
 	for i, k := range u.Keys {
 		p, err := tr.GetProof(k)
@@ -933,8 +951,19 @@ func (e *explorer) observe(ops []opSpec, in *inst, prev []int8, s *stats) (kind,
 			}
 		}
 	}
+	// Billet.Traverse from the root hash: every stored node once per occurrence, in pre-order
+	if root != (util.Uint256{}) {
+		var got [][]byte
+		bl := mpt.NewBillet(root, in2.mode&^mpt.ModeGCFlag, mpt.DummySTTempStoragePrefix, st)
+		if err := bl.Traverse(func(_ []byte, _ mpt.Node, nb []byte) bool { got = append(got, nb); return false }, false); err != nil {
+			return "billet-traverse", "Billet.Traverse fails with " + err.Error()
+		}
+		if !sameProof(got, ref.pre) {
+			return "billet-traverse", fmt.Sprintf("Billet.Traverse visits %d nodes, the pre-order of the canonical trie has %d (or they differ)", len(got), len(ref.pre))
+		}
+	}
 	// an operation that is refused (returns an error) changes nothing
-	long := make([]byte, mpt.MaxKeyLength+1)
+	long := longKey
 	for _, bad := range []struct {
 		n    string
 		k, v []byte
@@ -953,6 +982,21 @@ func (e *explorer) observe(ops []opSpec, in *inst, prev []int8, s *stats) (kind,
 		}
 		if err != nil && !errors.Is(err, storage.ErrKeyNotFound) {
 			return "triestore-get", fmt.Sprintf("TrieStore.Get(%s) of an absent key fails with %q instead of ErrKeyNotFound", u.KN[i], err)
+		}
+	}
+	// TrieStore over a backend that is not a MemCachedStore (persisted MemoryStore), temp storage prefix
+	if _, err := st.Persist(); err != nil {
+		return "persist", err.Error()
+	}
+	ts2 := mpt.NewTrieStore(root, in2.mode&^mpt.ModeGCFlag, in2.ms)
+	s.seeks++
+	if bad, _ := doSeekP(ts2, storage.STTempStorage, m, u.QP[1], nil, false, 0); bad != "" {
+		return "seek-plain-store", fmt.Sprintf("TrieStore over a MemoryStore, Seek(temp storage prefix, %s): %s", shortHex(u.QP[1]), bad)
+	}
+	for i, k := range u.Keys {
+		v, err := ts2.Get(append([]byte{byte(storage.STTempStorage)}, k...))
+		if (c[i] >= 0) != (err == nil) || (err == nil && !bytes.Equal(v, u.Vals[c[i]])) {
+			return "triestore-get-plain-store", fmt.Sprintf("TrieStore over a MemoryStore: Get(%s) = %x.., %v; model %s", u.KN[i], v[:min(len(v), 4)], err, u.show(c))
 		}
 	}
 	return "", ""
@@ -1278,6 +1322,65 @@ func tamperings(p [][]byte, pool [][]byte, root util.Uint256, emit func(name str
 			}
 		}
 	}
+}
+
+// malformedRoots: node lists whose first node cannot be a node of any trie
+// (unknown type, truncated, extension key / leaf value / nesting beyond the
+// limits of extension.go, leaf.go and base.go). With the hash of that first
+// node as the root nothing is stored under the root, so VerifyProof must fail,
+// without a panic, for every key.
+func (g *global) malformedRoots(u *uni) {
+	r := g.r
+	s := newStats()
+	leaf := leafBytes([]byte{0xaa})
+	hashChild := func(n []byte) []byte { h := dsha(n); return append([]byte{tHash}, h[:]...) }
+	ext := func(nib []byte, child []byte) []byte {
+		return append(append(appendVarUint([]byte{tExt}, len(nib)), nib...), child...)
+	}
+	type mcase struct {
+		name  string
+		nodes [][]byte
+		key   []byte
+	}
+	k69 := append(maxKey(), 0xab)
+	big1 := leafBytes(tooBigVal)
+	nested := leaf
+	for i := 0; i < 140; i++ {
+		nested = ext([]byte{1}, nested)
+	}
+	branchShort := append([]byte{tBranch}, bytes.Repeat([]byte{tEmpty}, 5)...)
+	cases := []mcase{
+		{"unknown-node-type-05", [][]byte{{0x05}}, nil},
+		{"unknown-node-type-ff", [][]byte{append([]byte{0xff}, leaf...)}, nil},
+		{"empty-node-bytes", [][]byte{{}}, nil},
+		{"truncated-branch", [][]byte{branchShort}, nil},
+		{"branch-with-unknown-child-type", [][]byte{append([]byte{tBranch, 0x07}, bytes.Repeat([]byte{tEmpty}, 16)...)}, nil},
+		{"truncated-leaf", [][]byte{{tLeaf, 0x03, 0xaa}}, nil},
+		{"truncated-extension-key", [][]byte{{tExt, 0x04, 0x01, 0x02}}, []byte{0x12, 0x34}},
+		{"extension-without-next", [][]byte{{tExt, 0x02, 0x01, 0x02}}, []byte{0x12}},
+		{"extension-key-of-138-nibbles", [][]byte{ext(nibbles(k69), hashChild(leaf)), leaf}, k69},
+		{"leaf-value-of-MaxValueLength+1", [][]byte{ext(nibbles(u.Keys[0]), hashChild(big1)), big1}, u.Keys[0]},
+		{"leaf-value-of-MaxValueLength+1-as-root", [][]byte{big1}, []byte{}},
+		{"140-nested-inline-extensions", [][]byte{nested}, bytes.Repeat([]byte{0x11}, 70)},
+	}
+	for _, mc := range cases {
+		root := dsha(mc.nodes[0])
+		keys := [][]byte{mc.key, {}, u.Keys[0], u.Keys[2]}
+		for _, k := range keys {
+			if k == nil {
+				continue
+			}
+			v, ok, pan := safeVerify(root, k, mc.nodes)
+			s.tamperVerifies++
+			if ok || pan != "" {
+				r.Violation(fmt.Sprintf("malformed-root:%s:key-%s", mc.name, shortHex(k)), caseRec{Part: "C", Scenario: "malformed-roots", Query: mc.name, Broken: "malformed-root",
+					Detail: fmt.Sprintf("VerifyProof(hash of the malformed node, %s, nodes) = (%d bytes, %v) %s", shortHex(k), len(v), ok, pan)})
+			}
+		}
+		s.tamperLists++
+	}
+	s.classes[fmt.Sprintf("C/malformed-roots/cases=%d", len(cases))]++
+	g.merge(s)
 }
 
 func tamperScenarios(thorough bool) []tamperScenario {
@@ -1615,6 +1718,65 @@ func (g *global) partD(u *uni, c []int8, s *stats) {
 			}
 		}
 	}
+	// arguments beyond the length limits: refused with an error, or answered like the model
+	for _, q := range []struct{ p, f []byte }{{longKey, nil}, {longKey, []byte{}}, {maxKey(), []byte{0x00}}, {[]byte{0x12}, longKey[1:]}, {[]byte{}, longKey}} {
+		s.queryFinds++
+		res, err := func() (res []storage.KeyValue, err error) {
+			defer func() {
+				if r := recover(); r != nil {
+					err = nil
+					res = []storage.KeyValue{{Key: []byte("panic: " + fmt.Sprint(r))}}
+				}
+			}()
+			return trieAt(root, mpt.ModeAll, flushed.st).Find(q.p, q.f, 1000)
+		}()
+		if err == nil {
+			want := modelFind(m, q.p, q.f, 1000)
+			got := make([]kvp, len(res))
+			for i, e := range res {
+				got[i] = kvp{e.Key, e.Value}
+			}
+			if !sameKVs(got, want) {
+				g.queryFail("find:over-length-arguments", u, c, fmt.Sprintf("prefix of %d bytes, from of %d bytes", len(q.p), len(q.f)), fmt.Sprintf("no error, got %s want %s", showKVs(got), showKVs(want)))
+			}
+		}
+	}
+	// Billet.Traverse stopped by the callback after n nodes: exactly the first n nodes of the pre-order, no error
+	pre := u.ref(c).pre
+	for n := 1; n <= len(pre); n++ {
+		var got [][]byte
+		bl := mpt.NewBillet(root, mpt.ModeAll, mpt.DummySTTempStoragePrefix, flushed.st)
+		err := bl.Traverse(func(_ []byte, _ mpt.Node, nb []byte) bool { got = append(got, nb); return len(got) >= n }, false)
+		if err != nil || !sameProof(got, pre[:n]) {
+			g.queryFail("billet-traverse:stop", u, c, fmt.Sprintf("stop after %d nodes", n), fmt.Sprintf("error %v, %d nodes visited (or other nodes than the first %d of the pre-order)", err, len(got), n))
+		}
+	}
+	// TrieStore is read-only: the documented refusals, and nothing changes
+	{
+		ts := mpt.NewTrieStore(root, mpt.ModeAll, flushed.st)
+		bad := ""
+		if _, err := ts.Get([]byte{}); !errors.Is(err, errors.ErrUnsupported) {
+			bad = fmt.Sprintf("Get(empty key) = %v, want ErrUnsupported", err)
+		}
+		if _, err := ts.Get(append([]byte{byte(storage.DataMPT)}, root[:]...)); !errors.Is(err, errors.ErrUnsupported) {
+			bad = fmt.Sprintf("Get(non-storage key) = %v, want ErrUnsupported", err)
+		}
+		if err := ts.PutChangeSet(map[string][]byte{"\x70\x12": {1}}, map[string][]byte{"\x70\x13": {2}}); !errors.Is(err, errors.ErrUnsupported) {
+			bad = fmt.Sprintf("PutChangeSet = %v, want ErrUnsupported", err)
+		}
+		if err := ts.SeekGC(storage.SeekRange{Prefix: []byte{byte(storage.STStorage)}}, func(k, v []byte) (bool, bool) { return false, false }); !errors.Is(err, errors.ErrUnsupported) {
+			bad = fmt.Sprintf("SeekGC = %v, want ErrUnsupported", err)
+		}
+		if b2, _ := doSeek(ts, m, []byte{}, nil, false, 0); b2 != "" && bad == "" {
+			bad = "Seek after the refused operations: " + b2
+		}
+		if err := ts.Close(); err != nil {
+			bad = fmt.Sprintf("Close = %v", err)
+		}
+		if bad != "" {
+			g.queryFail("triestore:read-only", u, c, "Get/PutChangeSet/SeekGC/Close", bad)
+		}
+	}
 	// the reused flushed trie still reads correctly after all those queries
 	if kind, detail := readsOf(flushed.tr, u, c, s, "-after-queries", 2); kind != "" {
 		g.r.Violation(kind+":D:"+u.show(c), detail)
@@ -1722,6 +1884,10 @@ func TestCheck(t *testing.T) {
 		g.partC(sc, u)
 		scNames = append(scNames, sc.Name)
 	}
+	if want("C") {
+		g.malformedRoots(u)
+		scNames = append(scNames, "malformed-roots")
+	}
 	bounds["C_scenarios"] = scNames
 
 	// ---- parts A and B as one pool of jobs
@@ -1815,9 +1981,7 @@ func TestCheck(t *testing.T) {
 		seconds := allBatches(len(u.Keys), keys, []int8{0, 1, 2, 3})
 		jobs = append(jobs, job{part, 1, func(s *stats) {
 			for _, b := range seconds {
-				if batchSize(b) > 0 {
-					e.node([]opSpec{b}, s)
-				}
+				e.node([]opSpec{b}, s) // including the empty batch
 			}
 		}})
 		for _, b1 := range bases {
@@ -1839,9 +2003,6 @@ func TestCheck(t *testing.T) {
 						}
 					}
 					for _, b2 := range seconds {
-						if batchSize(b2) == 0 {
-							continue
-						}
 						if g.r.Expired() || g.r.TooMany() {
 							return
 						}
@@ -1998,6 +2159,12 @@ func replay(g *global, u *uni) {
 	n := 0
 	switch {
 	case c.Part == "C":
+		if c.Scenario == "malformed-roots" {
+			for i := 0; i < 5; i++ {
+				g.malformedRoots(u)
+				n++
+			}
+		}
 		for _, sc := range tamperScenarios(true) {
 			if sc.Name == c.Scenario {
 				for i := 0; i < 5; i++ {
